@@ -382,7 +382,7 @@ func tileCase(c *hx.Ctx) {
 						}
 						switch {
 						case a > 0:
-							c.Note("outer-ring-surveyor-area:positive")
+							c.Note(fmt.Sprintf("outer-ring-surveyor-area:positive(zoom-lt-3=%v)", z < 3))
 						case a < 0:
 							c.Note("outer-ring-surveyor-area:negative")
 						default:
